@@ -172,8 +172,20 @@ impl RtpsWriterProxy {
         // FIND change FROM this.changes_from_writer SUCH-THAT
         // (change.sequenceNumber == a_seq_num);
         // change.status := RECEIVED; change.is_relevant := FALSE;
-        if a_seq_num > self.highest_received_change_sn {
-            self.highest_received_change_sn = a_seq_num;
+        match self.reliability {
+            // A reliable reader only moves forward over contiguous sequence numbers: a gap beyond a
+            // change that is still missing must not make that change unreachable. The writer repeats
+            // the GAP when the missing change is requested again.
+            ReliabilityKind::Reliable => {
+                if a_seq_num == self.available_changes_max() + 1 {
+                    self.highest_received_change_sn = a_seq_num;
+                }
+            }
+            ReliabilityKind::BestEffort => {
+                if a_seq_num > self.highest_received_change_sn {
+                    self.highest_received_change_sn = a_seq_num;
+                }
+            }
         }
     }
 
